@@ -19,7 +19,7 @@ SHAPES = [(), (0,), (1,), (3,), (2, 3), (2, 0)]
 DTYPES = ["float16", "float32", "float64", "int8", "int32", "int64", "bool"]
 GRADS = ["absent", "present", "viewgrad", "noncontig"]
 KINDS = ["leaf", "creator", "view", "view_perm", "view_stridedT"]  # the last two: neither C- nor F-contiguous, axis order != memory order
-FILES = ["str_npz", "str_bare", "path", "bytesio", "fileobj", "str_dotted", "path_bare", "path_dotted", "str_npz_upper", "namedtemp", "spooled", "duck"]
+FILES = ["str_npz", "str_bare", "path", "bytesio", "fileobj", "str_dotted", "path_bare", "path_dotted", "str_npz_upper", "namedtemp", "spooled", "duck", "bytesio_offset"]
 # path targets: (file name handed to save, as pathlib.Path?) ; the file written must be the one numpy.savez writes for that name
 NAMED = {"str_bare": ("t", False), "str_dotted": ("t.v2", False), "path_bare": ("t", True), "path_dotted": ("run.a", True), "str_npz_upper": ("t.NPZ", False)}
 
@@ -143,6 +143,13 @@ def check(cell):
                 b = io.BytesIO()
                 mg.save(b, t)
                 b.seek(0)
+                loaded = mg.load(b)
+            elif fk == "bytesio_offset":
+                # the tensor is not at the start of the file object: the caller positions it, save/load work from there
+                b = io.BytesIO()
+                b.write(b"seventeen bytes!!")
+                mg.save(b, t)
+                b.seek(17)
                 loaded = mg.load(b)
             elif fk in ("namedtemp", "spooled", "duck"):
                 # binary file objects that are not io.IOBase subclasses (NumPy duck-types file objects)
